@@ -399,6 +399,7 @@ class Model(Object):
         new._contexts = []
         new.notes = deepcopy(self.notes)
         new.annotation = deepcopy(self.annotation)
+        new._compartments = dict(self._compartments)
 
         # the notes and annotations may hold nested containers that must not be
         # shared between the original and the copy
